@@ -12,8 +12,8 @@ import time
 import traceback
 
 VERIF_DIR = os.path.dirname(os.path.dirname(os.path.abspath(__file__)))
-EVIDENCE_DIR = os.path.join(VERIF_DIR, "evidence")
-REPLAY_DIR = os.path.join(VERIF_DIR, "replays")
+EVIDENCE_DIR = os.environ.get("VERIF_EVIDENCE_DIR") or os.path.join(VERIF_DIR, "evidence")
+REPLAY_DIR = os.environ.get("VERIF_REPLAY_DIR") or os.path.join(VERIF_DIR, "replays")
 
 
 class Violation(Exception):
